@@ -1,33 +1,34 @@
-import PydraModel.FileHash.LemmasExact
+import PydraModel.FileHash.LemmasKey
 /-
 C09 — File hashes always reflect current file content.
 
 Property theorems only (helper lemmas: `FileHash/Lemmas*.lean`).  The model (`FileHash/Model.lean`) is the
-algorithm of the pinned tree: persistent-cache key `(class, path, st_mtime_ns)`, look-up order
+algorithm of the pinned tree: a file-set is a class and a list of member paths (any number of members);
+persistent-cache key `(class, member paths, member st_mtime_ns values in the same order)`; look-up order
 in-memory dict → file in `PYDRA_HASH_CACHE` → calculate.  Histories are lists of operations of ANY length;
-all theorems are by induction over the history with the invariant `Inv`
-("every entry for key (cls, p, m) was computed from the content p has whenever p's mtime is m").
+the theorems are by induction over the history with the invariant `Inv`
+("every entry for key (cls, ps, ms) was computed from the contents ps have whenever their mtimes are ms").
 
 The digest function `H` is an arbitrary parameter; nothing (in particular not injectivity) is assumed of it.
 -/
 namespace PydraModel.FileHash
 
 /-- FULL statement of the property (NOT true of the pinned tree, see `C09_not_full`): for every digest
-    function and every history, each hash operation returns the digest of the content the file has at that
-    moment. -/
+    function and every history, each hash operation returns the digest of the contents the members of the
+    file-set have at that moment. -/
 def C09_full_statement : Prop :=
-  ∀ (D : Type) (H : Cls → Content → D) (ops : List Op),
+  ∀ (D : Type) (H : Cls → List Path → List Content → D) (ops : List Op),
     digests H ops (run init ops) = digests H ops (specRun FS.empty ops)
 
-/-- PARTIAL (what the code does guarantee): on every history — any length, any number of sessions, with
-    clean-ups — in which each change of a path's (content, mtime) lands on a `(path, mtime)` pair for which no
-    live cache entry holds a different content (`MtimeFresh`, decidable), every hash operation answers with
-    the current content version … -/
+/-- PARTIAL (what the code does guarantee): on every history — any length, file-sets with any number of
+    members, any number of sessions, with clean-ups — in which no file operation leaves a live cache entry
+    stale (`MtimeFresh`, decidable: every change of a member lands on a combination of member mtimes under
+    which no other contents are cached), every hash operation answers with the current content versions … -/
 theorem C09_partial (ops : List Op) (h : MtimeFresh ops) : run init ops = specRun FS.empty ops :=
   (run_eq_spec_of_fresh ops init inv_init h).1
 
-/-- … hence with the digest of the current content, for any digest function whatsoever. -/
-theorem C09_partial_digest {D : Type} (H : Cls → Content → D) (ops : List Op) (h : MtimeFresh ops) :
+/-- … hence with the digest of the current contents, for any digest function whatsoever. -/
+theorem C09_partial_digest {D : Type} (H : Cls → List Path → List Content → D) (ops : List Op) (h : MtimeFresh ops) :
     digests H ops (run init ops) = digests H ops (specRun FS.empty ops) := by
   rw [C09_partial ops h]
 
@@ -38,8 +39,8 @@ theorem C09_partial_from (st : State) (hinv : Inv st) (ops : List Op) (h : fresh
   run_eq_spec_of_fresh ops st hinv h
 
 /-- `MtimeFresh` is EXACTLY the class on which the code is right: a history is fresh iff every prefix of it,
-    extended by any single hash operation, is answered as the reference answers it.  (So the hypothesis of
-    `C09_partial` cannot be weakened to any other prefix-closed condition.) -/
+    extended by any single hash operation (any class, any member list, any session), is answered as the
+    reference answers it. -/
 theorem C09_exact (ops : List Op) :
     MtimeFresh ops ↔
       ∀ pre op, pre <+: ops → op.isHash = true → run init (pre ++ [op]) = specRun FS.empty (pre ++ [op]) := by
@@ -50,7 +51,7 @@ theorem C09_exact (ops : List Op) :
     unfold MtimeFresh at h ⊢
     rw [freshFrom_append, Bool.and_eq_true] at h
     rw [freshFrom_append, h.1]
-    cases op <;> simp [Op.isHash] at hop <;> simp [freshFrom, touched]
+    cases op <;> simp [Op.isHash] at hop <;> simp [freshFrom, Op.isFsOp]
   · intro h
     unfold MtimeFresh
     cases hf : freshFrom init ops with
@@ -59,36 +60,121 @@ theorem C09_exact (ops : List Op) :
       obtain ⟨pre, op, hpre, hop, hne⟩ := not_fresh_observable ops uniq_init hf
       exact absurd (h pre op hpre hop) hne
 
+/-! ### what the key depends on -/
+
+/-- The key determines the class, every member path and every member's mtime, positionally. -/
+theorem C09_key_injective (cls cls' : Cls) (ps ps' : List Path) (ms ms' : List Mtime) :
+    keyOf cls ps ms = keyOf cls' ps' ms' ↔ cls = cls' ∧ ps = ps' ∧ ms = ms' := by
+  simp [keyOf]
+
+/-- Changing ANY member's mtime changes the key: if member `i` of a complete file-set gets a new
+    (content, mtime) pair whose mtime differs from the old one, the key of the file-set is different —
+    however many members there are, whichever member it is, whatever the other members' mtimes are
+    (in particular when the new mtime is not the newest of the set). -/
+theorem C09_any_member_in_key (fs : FS) (cls : Cls) (ps : List Path) (i : Nat) (hi : i < ps.length)
+    (cms cms' : List (Content × Mtime)) (c' : Content) (t' : Mtime)
+    (h : readAll fs ps = some cms) (h' : readAll (fs.set ps[i] (some (c', t'))) ps = some cms')
+    (hne : ∀ hc : i < cms.length, t' ≠ cms[i].2) :
+    keyOf cls ps (cms'.map Prod.snd) ≠ keyOf cls ps (cms.map Prod.snd) := by
+  intro heq
+  have hm : cms'.map Prod.snd = cms.map Prod.snd := ((C09_key_injective _ _ _ _ _ _).mp heq).2.2
+  have l1 := readAll_length h
+  have l2 := readAll_length h'
+  have g' := readAll_get h' i hi (by omega)
+  simp only [FS.set, if_true, Option.some.injEq] at g'
+  have e : (cms'.map Prod.snd)[i]'(by simp; omega) = (cms.map Prod.snd)[i]'(by simp; omega) := by
+    simp only [hm]
+  simp only [List.getElem_map] at e
+  rw [← g'] at e
+  exact hne (by omega) e
+
+/-- … and a key that is in neither cache forces recalculation from the contents as they are now (no
+    assumption on the state at all): a member change to a combination of mtimes not cached before is always
+    answered correctly. -/
+theorem C09_unseen_key_recalculates (st : State) (sess : Option Sess) (cls : Cls) (ps : List Path)
+    (cms : List (Content × Mtime)) (h : readAll st.fs ps = some cms)
+    (hmem : ∀ s, sess = some s → st.mem.lookup (s, keyOf cls ps (cms.map Prod.snd)) = none)
+    (hdisk : st.disk.lookup (keyOf cls ps (cms.map Prod.snd)) = none) :
+    (hashWith st sess cls ps).2 = some (cms.map Prod.fst) := by
+  unfold hashWith hashWithK
+  have : (sess.bind fun s => st.mem.lookup (s, keyOf cls ps (cms.map Prod.snd))) = none := by
+    cases sess with
+    | none => rfl
+    | some s => simpa using hmem s rfl
+  simp only [h, this, hdisk]
+
+/-- Documentation by refutation — key constructions that lose a member's mtime return stale hashes on
+    histories the pinned key handles correctly (`runK keyOf = run`, `runK_keyOf`).
+    (a) one aggregate, the newest mtime: an OLDER member is replaced (rename-over) by a file whose mtime is
+        different but still not the newest. -/
+theorem C09_key_max_refuted :
+    let h : List Op := [.write 0 1 5, .write 1 2 9, .hashFresh 3 [0, 1], .write 2 7 3, .rename 2 0, .hashFresh 3 [0, 1]]
+    MtimeFresh h ∧ run init h = specRun FS.empty h
+    ∧ runK keyMax init h = [none, none, some [1, 2], none, none, some [1, 2]]
+    ∧ specRun FS.empty h = [none, none, some [1, 2], none, none, some [7, 2]] := by
+  refine ⟨by decide, by decide, by decide, by decide⟩
+
+/-- (b) one aggregate, the sum: two members change so that the sum is kept. -/
+theorem C09_key_sum_refuted :
+    let h : List Op := [.write 0 1 5, .write 1 2 9, .hashFresh 3 [0, 1], .write 0 3 6, .write 1 4 8, .hashFresh 3 [0, 1]]
+    MtimeFresh h ∧ run init h = specRun FS.empty h ∧ runK keySum init h ≠ specRun FS.empty h := by
+  refine ⟨by decide, by decide, by decide⟩
+
+/-- (c) only the first member's mtime: the second member changes (copy2 of a file with another mtime). -/
+theorem C09_key_first_refuted :
+    let h : List Op := [.write 0 1 5, .write 1 2 9, .hashFresh 3 [0, 1], .write 2 7 3, .copy2 2 1, .hashFresh 3 [0, 1]]
+    MtimeFresh h ∧ run init h = specRun FS.empty h ∧ runK keyFirst init h ≠ specRun FS.empty h := by
+  refine ⟨by decide, by decide, by decide⟩
+
+/-- (d) mtimes without their position (a multiset): two members swap mtimes. -/
+theorem C09_key_unordered_refuted :
+    let h : List Op := [.write 0 1 5, .write 1 2 9, .hashFresh 3 [0, 1], .write 0 3 9, .write 1 4 5, .hashFresh 3 [0, 1]]
+    MtimeFresh h ∧ run init h = specRun FS.empty h ∧ runK keyUnordered init h ≠ specRun FS.empty h := by
+  refine ⟨by decide, by decide, by decide⟩
+
+/-! ### the defect (D7) -/
+
 /-- WITNESS (known finding D7): write A with mtime t; hash; write B with the same mtime t; hash.
     The second hash returns A's digest (stale), in the same session and in a brand-new one; the reference says B. -/
 theorem C09_witness :
-    run init [.write 0 1 7, .hash 0 0 0, .write 0 2 7, .hash 0 0 0, .newProcess 0, .hash 0 0 0, .hashFresh 0 0]
-      = [none, some 1, none, some 1, none, some 1, some 1]
-    ∧ specRun FS.empty [.write 0 1 7, .hash 0 0 0, .write 0 2 7, .hash 0 0 0, .newProcess 0, .hash 0 0 0, .hashFresh 0 0]
-      = [none, some 1, none, some 2, none, some 2, some 2]
-    ∧ ¬ MtimeFresh [.write 0 1 7, .hash 0 0 0, .write 0 2 7, .hash 0 0 0] := by
+    run init [.write 0 1 7, .hash 0 0 [0], .write 0 2 7, .hash 0 0 [0], .newProcess 0, .hash 0 0 [0], .hashFresh 0 [0]]
+      = [none, some [1], none, some [1], none, some [1], some [1]]
+    ∧ specRun FS.empty [.write 0 1 7, .hash 0 0 [0], .write 0 2 7, .hash 0 0 [0], .newProcess 0, .hash 0 0 [0], .hashFresh 0 [0]]
+      = [none, some [1], none, some [2], none, some [2], some [2]]
+    ∧ ¬ MtimeFresh [.write 0 1 7, .hash 0 0 [0], .write 0 2 7, .hash 0 0 [0]] := by
   refine ⟨by decide, by decide, by decide⟩
 
 /-- The full statement is false for the modelled code (take `H` = identity on content versions). -/
 theorem C09_not_full : ¬ C09_full_statement := by
   intro h
-  have := h Content (fun _ v => v) [.write 0 1 7, .hash 0 0 0, .write 0 2 7, .hash 0 0 0]
+  have := h (List Content) (fun _ _ v => v) [.write 0 1 7, .hash 0 0 [0], .write 0 2 7, .hash 0 0 [0]]
   revert this
   decide
 
 /-- The other usual shapes of D7: the mtime is *restored* after the rewrite (`utime`); a file with a cached
-    `(path, mtime)` is replaced by `rename`-over or `copy2` of a file that carries the same mtime. -/
+    `(path, mtime)` is replaced by `rename`-over or `copy2` of a file that carries the same mtime; a member of
+    a pair is replaced by a file carrying that member's mtime. -/
 theorem C09_witness_utime :
-    run init [.write 0 1 7, .hash 0 0 0, .write 0 2 9, .utime 0 7, .hash 0 0 0] = [none, some 1, none, none, some 1] := by
+    run init [.write 0 1 7, .hash 0 0 [0], .write 0 2 9, .utime 0 7, .hash 0 0 [0]]
+      = [none, some [1], none, none, some [1]] := by
   decide
 
 theorem C09_witness_rename :
-    run init [.write 0 1 7, .write 1 2 7, .hashFresh 0 0, .rename 1 0, .hashFresh 0 0] = [none, none, some 1, none, some 1] := by
+    run init [.write 0 1 7, .write 1 2 7, .hashFresh 0 [0], .rename 1 0, .hashFresh 0 [0]]
+      = [none, none, some [1], none, some [1]] := by
   decide
 
 theorem C09_witness_copy2 :
-    run init [.write 0 1 7, .write 1 2 7, .hashFresh 0 0, .copy2 1 0, .hashFresh 0 0] = [none, none, some 1, none, some 1] := by
+    run init [.write 0 1 7, .write 1 2 7, .hashFresh 0 [0], .copy2 1 0, .hashFresh 0 [0]]
+      = [none, none, some [1], none, some [1]] := by
   decide
+
+theorem C09_witness_pair :
+    run init [.write 0 1 5, .write 1 2 9, .hashFresh 4 [0, 1], .write 2 7 5, .copy2 2 0, .hashFresh 4 [0, 1]]
+      = [none, none, some [1, 2], none, none, some [1, 2]] := by
+  decide
+
+/-! ### several processes -/
 
 /-- MULTI-PROCESS: without clean-ups the directory on disk is the whole state — ending a session (dropping its
     in-memory dict) at any point changes no later answer of any session, whether the history is fresh or not. -/
@@ -110,44 +196,53 @@ theorem C09_multiproc_fresh (ops1 ops2 : List Op) (s : Sess)
     answering from memory (stale) while a new process recalculates — `newProcess` changes the later answer.
     (The history is not `MtimeFresh`; on fresh histories `C09_partial` applies with clean-ups included.) -/
 theorem C09_cleanup_witness :
-    run init [.write 0 1 7, .hash 0 0 0, .write 0 2 7, .cleanUp [⟨0, 0, 7⟩], .hash 0 0 0] = [none, some 1, none, none, some 1]
-    ∧ run init [.write 0 1 7, .hash 0 0 0, .write 0 2 7, .cleanUp [⟨0, 0, 7⟩], .newProcess 0, .hash 0 0 0]
-        = [none, some 1, none, none, none, some 2] := by
+    run init [.write 0 1 7, .hash 0 0 [0], .write 0 2 7, .cleanUp [⟨0, [0], [7]⟩], .hash 0 0 [0]]
+      = [none, some [1], none, none, some [1]]
+    ∧ run init [.write 0 1 7, .hash 0 0 [0], .write 0 2 7, .cleanUp [⟨0, [0], [7]⟩], .newProcess 0, .hash 0 0 [0]]
+        = [none, some [1], none, none, none, some [2]] := by
   refine ⟨by decide, by decide⟩
 
 /-! ### non-vacuity -/
 
-/-- A realistic fresh history: rewrite with a new mtime, same-size rewrite with a new mtime, copy2 to a new
-    path, rename over an uncached path, re-use of an old mtime *after clean-up removed the entry*, two
-    sessions, two classes — `MtimeFresh` holds, and the answers are the current contents. -/
-example : MtimeFresh [.write 0 1 7, .hash 0 0 0, .write 0 2 8, .hash 1 0 0, .copy2 0 1, .hash 0 1 1,
-    .newProcess 0, .cleanUp [⟨0, 0, 7⟩], .write 0 3 7, .hash 0 0 0, .rename 0 2, .hashFresh 0 2, .utime 2 9, .hash 1 0 2] := by
+/-- A realistic fresh history: rewrite with a new mtime, copy2 to a new path, a pair and a three-member set
+    whose older members are replaced by files with other (not newest) mtimes, re-use of an old mtime *after
+    clean-up removed the entry*, two sessions, several classes — `MtimeFresh` holds, and the answers are the
+    current contents. -/
+example : MtimeFresh [.write 0 1 7, .hash 0 0 [0], .write 0 2 8, .hash 1 0 [0], .copy2 0 1, .hash 0 1 [1],
+    .hash 0 4 [0, 1], .write 2 5 3, .hash 1 3 [0, 1, 2], .rename 2 0, .hash 1 4 [0, 1], .hash 0 3 [0, 1, 2],
+    .newProcess 0, .cleanUp [⟨0, [0], [7]⟩], .write 0 3 7, .hash 0 0 [0], .hashFresh 4 [0, 1], .utime 1 9, .hash 1 4 [0, 1]] := by
   decide
 
-example : run init [.write 0 1 7, .hash 0 0 0, .write 0 2 8, .hash 1 0 0, .copy2 0 1, .hash 0 1 1,
-    .newProcess 0, .cleanUp [⟨0, 0, 7⟩], .write 0 3 7, .hash 0 0 0, .rename 0 2, .hashFresh 0 2, .utime 2 9, .hash 1 0 2]
-    = [none, some 1, none, some 2, none, some 2, none, none, none, some 3, none, some 3, none, some 3] := by
+example : run init [.write 0 1 7, .hash 0 0 [0], .write 0 2 8, .hash 1 0 [0], .copy2 0 1, .hash 0 1 [1],
+    .hash 0 4 [0, 1], .write 2 5 3, .hash 1 3 [0, 1, 2], .rename 2 0, .hash 1 4 [0, 1], .hash 0 3 [0, 1, 2],
+    .newProcess 0, .cleanUp [⟨0, [0], [7]⟩], .write 0 3 7, .hash 0 0 [0], .hashFresh 4 [0, 1], .utime 1 9, .hash 1 4 [0, 1]]
+    = [none, some [1], none, some [2], none, some [2], some [2, 2], none, some [2, 2, 5], none, some [5, 2], none,
+       none, none, none, some [3], some [3, 2], none, some [3, 2]] := by
   decide
 
 /-- Re-using a cached `(path, mtime)` with the *same* content is fresh (touch, or rewriting identical bytes). -/
-example : MtimeFresh [.write 0 1 7, .hash 0 0 0, .write 0 1 7, .utime 0 8, .utime 0 7, .hash 0 0 0] := by decide
+example : MtimeFresh [.write 0 1 7, .hash 0 0 [0], .write 0 1 7, .utime 0 8, .utime 0 7, .hash 0 0 [0]] := by decide
+
+/-- `C09_any_member_in_key` hypotheses: a three-member set, the middle (neither oldest nor newest) member changes. -/
+example : readAll ((FS.empty.set 0 (some (1, 5))).set 1 (some (2, 7)) |>.set 2 (some (3, 9))) [0, 1, 2]
+      = some [(1, 5), (2, 7), (3, 9)]
+    ∧ readAll (((FS.empty.set 0 (some (1, 5))).set 1 (some (2, 7)) |>.set 2 (some (3, 9))).set ([0, 1, 2][1]) (some (4, 6))) [0, 1, 2]
+      = some [(1, 5), (4, 6), (3, 9)] := by
+  refine ⟨by decide, by decide⟩
 
 /-- `C09_multiproc` hypotheses are met by a history that is NOT fresh (it speaks about wrong answers too). -/
-example : noCleanUp [.write 0 1 7, .hash 0 0 0, .write 0 2 7] = true ∧ noCleanUp [.hash 0 0 0, .hash 1 0 0] = true
-    ∧ ¬ MtimeFresh ([.write 0 1 7, .hash 0 0 0, .write 0 2 7] ++ [.hash 0 0 0, .hash 1 0 0]) := by
+example : noCleanUp [.write 0 1 7, .hash 0 0 [0], .write 0 2 7] = true ∧ noCleanUp [.hash 0 0 [0], .hash 1 0 [0]] = true
+    ∧ ¬ MtimeFresh ([.write 0 1 7, .hash 0 0 [0], .write 0 2 7] ++ [.hash 0 0 [0], .hash 1 0 [0]]) := by
   refine ⟨by decide, by decide, by decide⟩
 
 /-- `C09_multiproc_fresh` hypotheses are met by a history with a clean-up in its first part. -/
-example : MtimeFresh ([.write 0 1 7, .hashFresh 0 0, .cleanUp [⟨0, 0, 7⟩], .write 0 2 7] ++ [.hash 0 0 0, .hashFresh 0 0])
-    ∧ MtimeFresh (([.write 0 1 7, .hashFresh 0 0, .cleanUp [⟨0, 0, 7⟩], .write 0 2 7] ++ [.newProcess 0]) ++ [.hash 0 0 0, .hashFresh 0 0]) := by
+example : MtimeFresh ([.write 0 1 7, .hashFresh 0 [0], .cleanUp [⟨0, [0], [7]⟩], .write 0 2 7] ++ [.hash 0 0 [0], .hashFresh 0 [0]])
+    ∧ MtimeFresh (([.write 0 1 7, .hashFresh 0 [0], .cleanUp [⟨0, [0], [7]⟩], .write 0 2 7] ++ [.newProcess 0]) ++ [.hash 0 0 [0], .hashFresh 0 [0]]) := by
   refine ⟨by decide, by decide⟩
 
 /-- `C09_partial_from`: a non-empty state satisfying the invariant. -/
-example : Inv ⟨FS.empty.set 0 (some (1, 7)), [(⟨0, 0, 7⟩, 1), (⟨0, 0, 6⟩, 5)], [((3, ⟨0, 0, 7⟩), 1)]⟩ := by
+example : Inv ⟨FS.empty.set 0 (some (1, 7)), [(⟨0, [0], [7]⟩, [1]), (⟨0, [0], [6]⟩, [5])], [((3, ⟨0, [0], [7]⟩), [1])]⟩ := by
   rw [inv_iff_noStale]
-  intro p
-  by_cases hp : p = 0
-  · subst hp; decide
-  · simp [staleAt, FS.set, FS.empty, hp]
+  decide
 
 end PydraModel.FileHash
